@@ -404,6 +404,14 @@ def part_bc(spec, rng, counters, digests, samples, violations, known):
             why = mirrored(real, twin, op, op, counters)
             if why == STOP:
                 break
+            if why and relab and "different contents" in why and kf.is_open("KF1", ID) and mgrmon.declared_structural_cycle(real.mgr):
+                # the follow-ups themselves can close a structural cycle inside the one container everything was rebound
+                # to (KF1): the directly built manager and the copy register in different orders, values become
+                # schedule dependent; `real` here is the directly built REFERENCE manager
+                counters["followups_ended_by_structural_cycle_after_followup"] = \
+                    counters.get("followups_ended_by_structural_cycle_after_followup", 0) + 1
+                known.append(kf.known("KF1"))
+                break
             if why:
                 if "KeyError" in why and only_r:
                     # definitions under other labels are (by contract) not copied: unregistering one is not comparable
